@@ -511,7 +511,11 @@ class AsyncFIXConnection:
             _is_err = True
             if msg.msg_type == FMsg.SEQUENCERESET:
                 _is_err = False
-            if self._connection_state == ConnectionState.RESENDREQ_AWAITING:
+            if (
+                self._connection_state == ConnectionState.RESENDREQ_AWAITING
+                and msg.get(FTag.PossDupFlag, "N") == "Y"
+            ):
+                # only retransmitted duplicates are tolerated while awaiting a resend
                 _is_err = False
 
             if _is_err:
